@@ -290,14 +290,14 @@ def build(states, slots, cluster_bits=16, version=3, size=None, window_at=0, tot
     # ---- header ------------------------------------------------------------------------------------------------------
     incompat = (4 if data_file else 0) | (16 if extl2 else 0)
     exts = b""
-    if version >= 3 or extensions:
+    if version >= 3 or extensions or backing_format is not None:
         for m, d in (extensions or []):
             exts += extension(m, d)
         if backing_format is not None:
             exts += extension(EXT_BACKING_FORMAT, backing_format.encode())
         if data_file:
             exts += extension(EXT_DATA_FILE, b"verif-data.raw")
-        if with_end_ext and version >= 3:
+        if with_end_ext and (version >= 3 or backing_format is not None):
             exts += extension(0, b"")
     hl = header_length if version >= 3 else 72
     boff = blen = 0
